@@ -329,7 +329,9 @@ def run(ctx):
         "result path; tied to the code by this run's differential test",
         "C03/Gen.v regenerated from _cffi_backend.c/_cffi_include.h by tools/props/c03_regen.py + c03_cexpr.py (trusted translator): "
         "macro range tests, instantiations, dispatch, export table, and the statement sequences of convert_from_object's "
-        "integer branches and of convert_from_object_fficallback's narrow-result blocks (executed by C03/Interp.v)",
+        "integer branches and of convert_from_object_fficallback's narrow-result blocks (executed by C03/Interp.v); "
+        "twelve textual call-site facts path_* (each store path named in the property calls convert_from_object), "
+        "fail-closed when an enclosing function is missing, false when the call is gone",
         "C03/CExpr.v: C11 integer-expression semantics on LP64 with gcc's implementation-defined choices",
         "PyLong_AsLongLong / PyLong_AsUnsignedLongLong raise OverflowError exactly outside their ranges (CPython)",
         "gcc as the oracle for sizeof and signedness of each type; little-endian x86-64"]
@@ -337,16 +339,29 @@ def run(ctx):
 
 
 MANIFEST = dict(
-    technique="Coq proof over all Python ints and all integer sizes 1..8 bytes + regenerated C range tests "
-              "(deep-embedded C expressions evaluated in Coq) + differential correspondence on all store paths",
+    technique="Coq proof over all Python ints and all integer sizes 1..8 bytes + regenerated C range tests, store "
+              "statement lists and call-site facts (deep-embedded C expressions evaluated in Coq) + differential "
+              "correspondence on all store paths",
     text="Proof: for every integer ctype (1..8 bytes, signed/unsigned, _Bool) and every Python int v, the model of "
          "convert_from_object accepts iff v is in range, writes exactly v's encoding, and otherwise raises OverflowError "
-         "leaving the target unchanged; the API-mode converters, whose range tests are regenerated from the macro text "
-         "and evaluated with C semantics (no UB), deliver exactly v or OverflowError; all paths agree; a callback "
-         "returning an out-of-range value makes the caller receive the error value; a store at an offset of a larger "
-         "object changes nothing outside its ct_size bytes; floats and objects without __int__ raise TypeError. Hand model tied by running "
-         "types x 8 store paths x boundary/random values on the scratch build on every run.",
+         "leaving the target unchanged (C03_store_exact, C03_roundtrip, C03_store_frame, C03_store_received); the API-mode "
+         "converters, whose range tests are regenerated from the macro text and evaluated with C semantics (no UB), deliver "
+         "exactly v or OverflowError (C03_api_arg_exact); all paths agree (C03_paths_agree); a callback returning an "
+         "out-of-range value makes the caller receive the error value (C03_callback_exact, needs the error value in range); "
+         "floats and objects without __int__ raise TypeError (C03_store_obj_exact). On the REGENERATED statement lists of both "
+         "integer branches of convert_from_object and of the fficallback blocks: executed, they are the hand model "
+         "(C03_gen_store_refines, C03_gen_fficallback_refines), the target is written only after every check "
+         "(C03_gen_store_writes_after_checks) and a failing store leaves it unchanged (C03_gen_store_failure_pure). "
+         "C03_paths_reach_convert_from_object: twelve regenerated call-site facts (direct_newp, cdata_ass_sub, cdata_setattro -> "
+         "convert_field_from_object, struct/array initialisers, dl_write_variable, lib_setattr -> write_global_var, the cdata_call "
+         "argument loop, callback results, cffi_exports[]) are all true, i.e. every store path named in the property textually "
+         "calls convert_from_object; a removed or redirected call breaks the obligation. Correspondence only: enums = base type, "
+         "the API-mode global store, and that the textual call is executed with the address the model assumes "
+         "(types x 8 store paths x boundary/random values on the scratch build on every run).",
     note="Trusted: Coq kernel; hand model C03/Model.v (differential tie); translator c03_regen/c03_cexpr; C03/CExpr.v "
-         "semantics; CPython PyLong_As*; gcc; libffi for the ABI paths. Floats / __int__ / no-__int__ objects are modelled (C03_store_obj_exact) and exercised, though "
+         "semantics; CPython PyLong_As* (as_longlong / as_ulonglong_strict and _cffi_to_c__Bool are hand models, not regenerated); "
+         "gcc; libffi for the ABI paths. wf_ity admits sizes 3,5,6,7 (a superset of the real ones). Call-site facts are textual "
+         "(normalised substring inside the named function, function must exist exactly once: fail closed), not control-flow facts. "
+         "Floats / __int__ / no-__int__ objects are modelled (C03_store_obj_exact) and exercised, though "
          "outside the property's quantifier. Theorems closed under the global context.",
     design_ref="DESIGN.md §4 C03")
